@@ -435,6 +435,7 @@ class Config:
         self.scalar_records = {}     # record name -> C scalar type (e.g. std::atomic handled separately)
         self.outside_methods = {}    # record outside babylon -> set of method names lowered to extern C functions
         self.type_aliases = {}       # sugar spelling clang prints (typedefs of libstdc++, names written inside a class) -> canonical spelling
+        self.extra_structs = {}      # outside record name -> C struct text ('@' = struct name) supplied by the group
         self.trivial_copy = set()    # outside records that are trivially copyable (copied as C structs)
         self.opaque_sizes = {}       # record name -> (size, align): emitted as an opaque byte blob of clang's size
         self.aliases = []            # (normalised C++ name fragment, short replacement) applied before C names are formed
@@ -935,7 +936,7 @@ class Unit:
             return
         if rec is None or name in self.cfg.opaque_records:
             # external / incomplete: predefined layouts for a few std things
-            pre = PREDEFINED_STRUCTS.get(name)
+            pre = PREDEFINED_STRUCTS.get(name) or self.cfg.extra_structs.get(name)
             if pre is None:
                 raise Abort('record %s needed by value but has no definition in the babylon AST' % name)
             self.struct_state[name] = 'done'
